@@ -199,6 +199,12 @@ func init() {
 			job(sc(sim.BoundaryEntitiesCfg("c02-boundary-64-entities", 62, 4, 128, fBNew|fBRem|fReset, oBasic).P("C02")), pick(tier, 4, 5), 0.5),
 			job(sc(sim.BoundaryEntitiesCfg("c02-boundary-64-entities-cap1", 62, 4, 1, fBNew|fBRem|fRet, oBasic).P("C02")), pick(tier, 3, 4), 0.5),
 			job(sc(sim.BoundaryEntitiesCfg("c02-boundary-128-entities", 124, 4, 128, fBNew|fBRem|fReset, oBasic).P("C02")), pick(tier, 4, 5), 0.5),
+			// removal through an exclusive filter with component IDs in all four mask words
+			job(sc(func() *sim.Cfg {
+				c := sim.CoreCfg("c02-core-k3-ids-0-64-128-192-exclusive-removal", 3, 8, []int{0, 63, 63, 63}, fMove|fBRem, oBasic)
+				c.BatchRefs = []int{0, 1, 4}
+				return c.P("C02")
+			}()), pick(tier, 3, 5), 0.5),
 			// handles across DumpEntities / LoadEntities (lock-step pair, also decided by C17)
 			job(scAny(&sim.PairCfg{ID: "c02-ent-k5-dumpload", Base: func() *sim.Cfg {
 				c := sim.EntCfg("c02-ent-k5-dumpload/base", 5, 1, fBNew|fBRem, oBasic)
@@ -226,6 +232,11 @@ func init() {
 			job(sc(sim.RelCfg("c03-rel-k4-any-reg-life", 0, 4, 0, 8, fBld|fMove|fReg, oBasic).P("C03")), pick(tier, 7, 9), 3),
 			job(sc(sim.RelCfg("c03-rel-k4-batchq", 0, 4, 0, 8, fBld|fBSet|fBExch|fBNew|fQ, oBasic).P("C03")), pick(tier, 5, 7), 3),
 			job(sc(sim.CoreCfg("c03-core-k4-batchq", 4, 1, nil, fMove|fBExch|fBNew|fQ, oBasic).P("C03")), pick(tier, 4, 6), 2),
+			// queries over a world whose entities came from LoadEntities (recycled IDs included)
+			job(scAny(&sim.PairCfg{ID: "c03-ent-k4-loaded-world-iter", Base: func() *sim.Cfg {
+				c := sim.EntCfg("c03-ent-k4-loaded-world-iter/base", 4, 1, fBNew|fBRem, oDeep)
+				return c.P("C03")
+			}(), Prop: "C03", Load: true}), pick(tier, 6, 8), 1),
 			job(sc(sim.BoundaryNodesCfg("c03-boundary-34-nodes-iter", 1, fMove|fReg, oDeep).P("C03")), pick(tier, 2, 3), 1),
 			job(sc(sim.CoreCfg("c03-core-k3-ids-63-64-128-iter", 3, 8, []int{63, 0, 63, 0}, fMove|fReg, oDeep).P("C03")), pick(tier, 4, 5), 1),
 			job(sc(sim.CoreCfg("c03-core-k3-ids-0-64-127-191-iter", 3, 8, []int{0, 63, 62, 63}, fMove|fReg, oDeep).P("C03")), pick(tier, 4, 5), 1),
@@ -263,6 +274,12 @@ func init() {
 	}, func(f *wx.Failure, last string) bool {
 		if f.Prop == "" || f.Prop == "C05" || strings.HasPrefix(f.Sig, "register-locked:") {
 			return true
+		}
+		// what a relation filter (plain or registered) selects is part of this property
+		for _, p := range []string{"query-set", "cached-set", "cached-count"} {
+			if strings.HasPrefix(f.Sig, p) && strings.Contains(f.Msg, "Rel(") {
+				return true
+			}
 		}
 		// a corrupted entity index or table right after an operation that sets or moves relation targets
 		switch last {
